@@ -9,9 +9,10 @@ rule the body of `MergeConfig` applies to it; `merge` below interprets that tabl
 
 Two views are modelled:
 * the VALUE view (`merge`): what the merged configuration contains;
-* the HEAP view (`mergeH`): Go maps and slices are references into a heap of
-  objects, `var result = *a` copies references, `make` allocates, `maps.Copy` /
-  `append` write through a reference.  This is where "merging never modifies its
+* the HEAP view (`mergeH`): Go maps are references to heap objects and slices are headers
+  (address of a backing array, length; the array's size is the capacity), `var result = *a`
+  copies references and headers, `make` allocates, `maps.Copy` writes through a reference and
+  `append` writes into the backing array when it has room, else allocates.  This is where "merging never modifies its
   inputs" is stated (and where the pre-repair tag merge, rule `tagsInPlace`,
   visibly writes into `a`'s map).
 -/
@@ -231,9 +232,13 @@ def insertEnt (e : DirEnt) : List DirEnt → List DirEnt
 /-- `sort.Sort(dirEnts(contents))`: by name. -/
 def sortEnts (l : List DirEnt) : List DirEnt := l.foldr insertEnt []
 
-def isJson (name : String) : Bool :=
+/-- `strings.HasSuffix(name, suf)` -/
+def hasSuffix (suf name : String) : Bool :=
   let l := name.toList
-  l.length ≥ 5 && l.drop (l.length - 5) == ".json".toList
+  let s := suf.toList
+  l.length ≥ s.length && l.drop (l.length - s.length) == s
+
+def isJson (name : String) : Bool := hasSuffix ".json" name
 
 /-- the inner loop over a sorted directory listing -/
 def readDir (t : List FieldSpec) : List DirEnt → Config → Option Config
@@ -275,8 +280,98 @@ def allOk : List (Option Config) → Option (List Config)
   | none :: _ => none
   | some c :: rest => (allOk rest).map (c :: ·)
 
+/-! ### ReadConfigPaths as a function of its extracted shape
+
+`Gen/MergeConfig.lean` describes the body of `ReadConfigPaths` by the variation points below
+(and pins the exact statement sequence separately); `readPathsS` interprets them.
+`canonicalRead` is the shape `readPaths` above hard-codes (`readPathsS_canonical`). -/
+
+inductive MergeOrder | resultFirst | configFirst      -- MergeConfig(result, config) | MergeConfig(config, result)
+  deriving DecidableEq, Repr
+inductive SortOrder | unsorted | ascending | descending   -- no sort.Sort | Less = a < b | Less = a > b  (on names)
+  deriving DecidableEq, Repr
+/-- `running`: every file of a directory is merged into the running result;
+`separate`: the directory's files are merged into an own `new(Config)` which is then merged
+into the result (the shape of seeded mutation C31-a) -/
+inductive DirMode | running | separate
+  deriving DecidableEq, Repr
+
+structure ReadShape where
+  fileMerge : MergeOrder
+  sort : SortOrder
+  skipSubdirs : Bool
+  suffix : String
+  dirMerge : MergeOrder
+  dirMode : DirMode
+  deriving DecidableEq, Repr
+
+def canonicalRead : ReadShape :=
+  { fileMerge := .resultFirst, sort := .ascending, skipSubdirs := true, suffix := ".json",
+    dirMerge := .resultFirst, dirMode := .running }
+
+def mergeBy (t : List FieldSpec) : MergeOrder → Config → Config → Config
+  | .resultFirst, r, c => merge t r c
+  | .configFirst, r, c => merge t c r
+
+/-- the order in which the directory loop sees the entries (`ents` = the order `Readdir` returned) -/
+def orderEnts : SortOrder → List DirEnt → List DirEnt
+  | .unsorted, l => l
+  | .ascending, l => sortEnts l
+  | .descending, l => (sortEnts l).reverse
+
+def readDirS (s : ReadShape) (t : List FieldSpec) : List DirEnt → Config → Option Config
+  | [], acc => some acc
+  | e :: es, acc =>
+    if s.skipSubdirs && e.isDir then readDirS s t es acc
+    else if !hasSuffix s.suffix e.name then readDirS s t es acc
+    else match e.cfg with
+      | none => none                                   -- os.Open / DecodeConfig fails (a directory cannot be decoded either)
+      | some c => readDirS s t es (mergeBy t s.dirMerge acc c)
+
+def readLoopS (s : ReadShape) (t : List FieldSpec) : List PathArg → Config → Option Config
+  | [], acc => some acc
+  | .unreadable :: _, _ => none
+  | .file none :: _, _ => none
+  | .file (some c) :: ps, acc => readLoopS s t ps (mergeBy t s.fileMerge acc c)
+  | .dir ents :: ps, acc =>
+    match s.dirMode with
+    | .running =>
+      match readDirS s t (orderEnts s.sort ents) acc with
+      | none => none
+      | some acc' => readLoopS s t ps acc'
+    | .separate =>
+      match readDirS s t (orderEnts s.sort ents) (zero t) with
+      | none => none
+      | some d => readLoopS s t ps (merge t acc d)
+
+def readPathsS (s : ReadShape) (t : List FieldSpec) (ps : List PathArg) : Option Config :=
+  readLoopS s t ps (zero t)
+
+/-! ### DecodeConfig's post-processing
+
+After `json` + `mapstructure` (a parameter: the decoded fields as given), `DecodeConfig` turns
+each non-empty `XRaw` string into the duration `X` with `time.ParseDuration` (a parameter
+`parseDur`; `none` = error) and fails on the first string that does not parse.  `pairs` = the
+(raw field, duration field) pairs in the order of the statements (regenerated). -/
+
+def setField (c : Config) (name : String) (v : FieldVal) : Config :=
+  c.map fun p => if p.1 == name then (name, v) else p
+
+def decodeStep (parseDur : String → Option Int) (c : Config) (pr : String × String) : Option Config :=
+  match get c pr.1 with
+  | .str s => if s ≠ "" then (parseDur s).map fun n => setField c pr.2 (.int n) else some c
+  | _ => some c
+
+def decodePost (parseDur : String → Option Int) : List (String × String) → Config → Option Config
+  | [], c => some c
+  | pr :: rest, c =>
+    match decodeStep parseDur c pr with
+    | none => none
+    | some c' => decodePost parseDur rest c'
+
 /-! ### Heap view -/
 
+/-- a map object, or the backing array of a slice (its length is the slice's CAPACITY) -/
 inductive Obj | tags (m : Tags) | strs (l : List String)
   deriving DecidableEq, Repr, Inhabited
 
@@ -284,8 +379,9 @@ inductive Obj | tags (m : Tags) | strs (l : List String)
 abbrev Heap := List Obj
 
 inductive RVal
-  | scalar (v : FieldVal)          -- str / int / bool, copied by value
-  | ref (addr : Option Nat)        -- map or slice header: nil or an address
+  | scalar (v : FieldVal)                 -- str / int / bool, copied by value
+  | ref (addr : Option Nat)               -- map: nil or the address of its object
+  | slice (hdr : Option (Nat × Nat))      -- slice header: nil or (address of the backing array, length)
   deriving DecidableEq, Repr, Inhabited
 
 abbrev RConfig := List (String × RVal)
@@ -298,13 +394,34 @@ def readTags (h : Heap) : Option Nat → Tags
     | some (.tags m) => m
     | _ => []
 
-def readStrs (h : Heap) : Option Nat → List String
+/-- the backing array at address `i` -/
+def cellsOf (h : Heap) (i : Nat) : List String :=
+  match h[i]? with
+  | some (.strs l) => l
+  | _ => []
+
+/-- the elements a slice header denotes: the first `len` cells of its backing array -/
+def readSlice (h : Heap) : Option (Nat × Nat) → List String
   | none => []
-  | some i => match h[i]? with
-    | some (.strs l) => l
-    | _ => []
+  | some (i, n) => (cellsOf h i).take n
 
 def hwrite (h : Heap) (i : Nat) (o : Obj) : Heap := h.set i o
+
+/-- `make([]string, 0, c)`: a fresh backing array of capacity `c`, length 0 -/
+def makeH (h : Heap) (c : Nat) : Heap × Option (Nat × Nat) :=
+  (h ++ [.strs (List.replicate c "")], some (h.length, 0))
+
+/-- `append(s, xs...)` as Go does it: if the backing array has room (`len + |xs| ≤ cap`) the new
+elements are written INTO it and the result shares it; otherwise (or for a nil slice) a new array
+is allocated (Go's growth policy is abstracted: the new array is exactly as large as needed). -/
+def appendH (h : Heap) (s : Option (Nat × Nat)) (xs : List String) : Heap × Option (Nat × Nat) :=
+  match s with
+  | none => if xs.isEmpty then (h, none) else (h ++ [.strs xs], some (h.length, xs.length))
+  | some (i, n) =>
+    let cells := cellsOf h i
+    if n + xs.length ≤ cells.length then
+      (hwrite h i (.strs (cells.take n ++ xs ++ cells.drop (n + xs.length))), some (i, n + xs.length))
+    else (h ++ [.strs (cells.take n ++ xs)], some (h.length, n + xs.length))
 
 /-- One field of `MergeConfig` on the heap: returns the new heap and `result.X`. -/
 def mergeFieldH (h : Heap) (r : Rule) (a b : RVal) : Heap × RVal :=
@@ -326,20 +443,15 @@ def mergeFieldH (h : Heap) (r : Rule) (a b : RVal) : Heap × RVal :=
         (hwrite h1 n (.tags (copyInto (readTags h1 (some n)) (readTags h1 rb))), .ref (some n))
       | some i =>                                          -- result.Tags IS a.Tags
         (hwrite h i (.tags (copyInto (readTags h (some i)) (readTags h rb))), .ref (some i))
-  | .appendInPlace, .ref ra, .ref rb =>
-    -- append(a.X, b.X...): slice capacities are not tracked; the case that matters is modelled — a's
-    -- backing array has room (cap > len, any slice grown by append), so b's entries are written into
-    -- a's object and the result shares it.  (a.X == nil: append allocates.)
-    match ra with
-    | none => (h ++ [.strs (readStrs h rb)], .ref (some h.length))
-    | some i => (hwrite h i (.strs (readStrs h (some i) ++ readStrs h rb)), .ref (some i))
-  | .concat, .ref ra, .ref rb =>
-    let n := h.length                                      -- make([]string, 0, …): fresh backing array
-    let h1 := h ++ [.strs []]
-    let h2 := hwrite h1 n (.strs (readStrs h1 (some n) ++ readStrs h1 ra))
-    let h3 := hwrite h2 n (.strs (readStrs h2 (some n) ++ readStrs h2 rb))
-    (h3, .ref (some n))
-  | .always, _, b => (h, b)                                -- copies the value / the reference
+  | .appendInPlace, .slice sa, .slice sb =>                -- result.X = append(a.X, b.X...)
+    let r := appendH h sa (readSlice h sb)
+    (r.1, .slice r.2)
+  | .concat, .slice sa, .slice sb =>
+    let r0 := makeH h ((readSlice h sa).length + (readSlice h sb).length)   -- result.X = make([]string, 0, len(a.X)+len(b.X))
+    let r1 := appendH r0.1 r0.2 (readSlice r0.1 sa)                          -- result.X = append(result.X, a.X...)
+    let r2 := appendH r1.1 r1.2 (readSlice r1.1 sb)                          -- result.X = append(result.X, b.X...)
+    (r2.1, .slice r2.2)
+  | .always, _, b => (h, b)                                -- copies the value / the reference / the header
   | r, .scalar va, .scalar vb => (h, .scalar (mergeVal r va vb))
   | _, a, _ => (h, a)                                      -- no statement: result.X = a.X (shares a's reference)
 
@@ -352,11 +464,17 @@ def mergeHLoop : List FieldSpec → Heap → RConfig → RConfig → RConfig →
 /-- `MergeConfig(a, b)` on a heap. -/
 def mergeH (t : List FieldSpec) (h : Heap) (a b : RConfig) : Heap × RConfig := mergeHLoop t h a b []
 
+/-- a chain of merges on the heap (what `ReadConfigPaths` does with the decoded files): the
+accumulator of each step is the RESULT of the previous one, living in the heap it returned -/
+def foldH (t : List FieldSpec) : Heap → RConfig → List RConfig → Heap × RConfig
+  | h, acc, [] => (h, acc)
+  | h, acc, c :: cs => foldH t (mergeH t h acc c).1 (mergeH t h acc c).2 cs
+
 /-- What a reference-level field denotes. -/
 def derefVal (h : Heap) : Kind → RVal → FieldVal
   | .tags, .ref none => .tags none
   | .tags, .ref (some i) => .tags (some (readTags h (some i)))
-  | .list, .ref r => .list (readStrs h r)
+  | .list, .slice s => .list (readSlice h s)
   | _, .scalar v => v
   | k, _ => zeroVal k
 
